@@ -315,9 +315,13 @@ theorem expire_inv (f : Nat) (s : State) (h : AllInv s) : AllInv (expire f s) :=
       simp only at hs'
       split at hs'
       · simp at hs'
-      · simp only [Option.some.injEq] at hs'
-        rw [← hs']
-        exact endTx_inv _ _ _ _ h
+      · split at hs'
+        · simp only [Option.some.injEq] at hs'
+          rw [← hs']
+          exact endTx_inv _ _ _ _ h
+        · simp only [Option.some.injEq] at hs'
+          rw [← hs']
+          exact endTx_inv _ _ _ _ h
 
 theorem expireAll_inv (s : State) (h : AllInv s) : AllInv (expireAll s) := expire_inv _ s h
 
@@ -373,19 +377,25 @@ theorem pushBatch_hwm (pd : Part) (b : Batch) (t : Bool) : (pushBatch pd b t).hw
 theorem pushBatch_offsets (pd : Part) (b : Batch) (t : Bool) :
     (pushBatch pd b t).batches = pd.batches ++ [{ b with first := pd.hwm }] ∧ (pushBatch pd b t).hwm = pd.hwm + b.n := ⟨rfl, rfl⟩
 
+theorem initx_inv (s : State) (k t : Int) (h : AllInv s) : AllInv (initx s k t).1 := by
+  unfold initx; split
+  · exact h
+  · split
+    · unfold AllInv; simp only [setProd_parts]
+      split
+      · exact endTx_inv _ _ _ _ h
+      · exact h
+    · unfold AllInv; simp only [setProd_parts]; exact h
+
 theorem step_inv (s : State) (o : Op) (hv : Op.valid o) (h : AllInv s) : AllInv (step s o).1 := by
   cases o with
   | initx k t =>
     simp only [step]; apply expireAll_inv
-    unfold initx; split
-    · exact h
-    · split <;> (unfold AllInv; simp only [setProd_parts]; exact h)
+    exact initx_inv s k t h
   | initr k e =>
     simp only [step]; apply expireAll_inv
     unfold initr; split
-    · unfold initx; split
-      · exact h
-      · split <;> (unfold AllInv; simp only [setProd_parts]; exact h)
+    · exact initx_inv s k 1000 h
     · split
       · exact h
       · split
